@@ -206,7 +206,7 @@ func C11(r *drv.Run) {
 		nrand = 300000
 	}
 	nl := len(c11Leaves())
-	r.Rule = fmt.Sprintf("exhaustive: every unary operator x %d leaves and every binary operator x %d x %d leaves", nl, nl, nl) + " (string/number/bool literals at boundary values '', '0', '7', '12', 'abc', '+3', ' 4', '010', '0x1F', '1_000', '1e3', '3.5', an overflowing digit string, the largest and smallest 64-bit integers as strings and as numbers, number literals beyond the signed 64-bit range (value 0), names differing from assigned variables and built-ins only in letter case (unassigned: the empty string), 0, 1, 2, -1, 7, 12, true, false, and variables bound by set and by a capture) that the documented table types; plus chains of 9..13 operands joined by + with parenthesised groups on right-hand sides; plus seeded random well-typed trees of depth <= 3, each rendered with minimal AND with full parentheses (precedence and associativity) and with its keywords (true false not head tail and or) in UPPER or Capitalised case. Observation: a transform returning the expression (booleans through if/else) and a predicate returning it (match / no match). Oracle: evaluator transcribed from the documentation tables (harness/proc). Byte strings from the searched text: the six comparison operators over two captured tokens, their heads and tails and a literal (42 expressions) on all ordered pairs of 20 tokens - ASCII, accented letters in both cases, a three- and a four-byte character, and pieces of them that are not valid UTF-8 (lone lead and continuation bytes, 0xFF, 0xFE 0xFF): strings are ordered byte by byte. Non-trivial = every expression whose observed value equalled the expected one is a distinct checked cell; distinct by expression text."
+	r.Rule = fmt.Sprintf("every PAIR of binary operators (13 x 13) in both groupings over five small leaves, rendered with minimal parentheses; exhaustive: every unary operator x %d leaves and every binary operator x %d x %d leaves", nl, nl, nl) + " (string/number/bool literals at boundary values '', '0', '7', '12', 'abc', '+3', ' 4', '010', '0x1F', '1_000', '1e3', '3.5', an overflowing digit string, the largest and smallest 64-bit integers as strings and as numbers, number literals beyond the signed 64-bit range (value 0), names differing from assigned variables and built-ins only in letter case (unassigned: the empty string), 0, 1, 2, -1, 7, 12, true, false, and variables bound by set and by a capture) that the documented table types; plus chains of 9..13 operands joined by + with parenthesised groups on right-hand sides; plus seeded random well-typed trees of depth <= 3, each rendered with minimal AND with full parentheses (precedence and associativity) and with its keywords (true false not head tail and or) in UPPER or Capitalised case. Observation: a transform returning the expression (booleans through if/else) and a predicate returning it (match / no match). Oracle: evaluator transcribed from the documentation tables (harness/proc). Byte strings from the searched text: the six comparison operators over two captured tokens, their heads and tails and a literal (42 expressions) on all ordered pairs of 20 tokens - ASCII, accented letters in both cases, a three- and a four-byte character, and pieces of them that are not valid UTF-8 (lone lead and continuation bytes, 0xFF, 0xFE 0xFF): strings are ordered byte by byte. Non-trivial = every expression whose observed value equalled the expected one is a distinct checked cell; distinct by expression text."
 	r.Assumptions = []string{
 		"division and modulo by zero are not generated (no documented result; see known finding K1 under C09)",
 		"left open by the documentation and always parenthesised explicitly: unary operators over binary operands, ==/!= mixed with </>/<=/>= in one chain",
@@ -250,6 +250,46 @@ func C11(r *drv.Run) {
 				}
 			}
 		}
+	}
+	// every PAIR of binary operators in both groupings over five small leaves, rendered with the minimal parentheses the
+	// documented precedence and associativity ask for: `a op1 b op2 c` means what the table says
+	{
+		small := []proc.Expr{proc.EBool{V: true}, proc.EBool{V: false}, proc.ENum{V: 2}, proc.ENum{V: 3}, proc.EStr{V: "5"}}
+		envs := []proc.Env{env0, c11Env("a")}
+		npairs := 0
+		for _, op1 := range binOps {
+			for _, op2 := range binOps {
+				for _, a := range small {
+					for _, b := range small {
+						for _, cc := range small {
+							for shape := 0; shape < 2; shape++ {
+								var e proc.Expr
+								if shape == 0 {
+									e = proc.EBin{Op: op2, L: proc.EBin{Op: op1, L: a, R: b}, R: cc}
+								} else {
+									e = proc.EBin{Op: op1, L: a, R: proc.EBin{Op: op2, L: b, R: cc}}
+								}
+								if proc.TypeOf(e, c11TypeEnv) == proc.TErr {
+									continue
+								}
+								okv := true
+								for _, env := range envs {
+									if _, ok := proc.Eval(e, env); !ok {
+										okv = false
+									}
+								}
+								if !okv {
+									continue
+								}
+								all = append(all, c11Expr{e, proc.Render(e, false), "operator-pair " + op1 + " " + op2})
+								npairs++
+							}
+						}
+					}
+				}
+			}
+		}
+		r.Extra["operator_pair_expressions"] = npairs
 	}
 	r.Extra["exhaustive_depth1_expressions"] = len(all)
 	nprog := (len(all) + 7) / 8
